@@ -64,4 +64,7 @@ PROPS = {
 PROPS["C01"] = dict(jobs=None, obl=None, bounded="c01", level="other", design="4 C01/C15",
                     technique="bounded stand-in (whole-history property, no per-function contract states it): live system after every single edit and sampled/all pairs of edits vs a system built from the edited specification, on 7 sharing topologies; local clauses (frames, read order, chain contracts) are proved under C18/C08")
 
+PROPS["C16"] = dict(jobs=None, obl=None, bounded="c16", level="other", design="4 C16",
+                    technique="bounded stand-in: histories of 1-3 link/list operations (full alphabet, present/absent/duplicate/no-op arguments) on 4 topologies; after every operation forward links vs every reverse look-up, list content vs python mirror, deletion guard, system exclusivity")
+
 NOT_BUILT = {}
